@@ -1,12 +1,20 @@
 /* C10 - the Teletext cache (src/cache.c + cache-priv.h + dlist.h), compiled with CACHE_CONSISTENCY=1 so
  * that its own assert()s are proof obligations.
  *
- * Shape: INV-STEP on a constructed state.  build_state() creates, through the allocator model and the
- * real vbi_cache_new(), a cache with <= C10_NN networks and <= C10_NP pages whose keys, reference counts,
- * zombie flags, priorities, list positions (hash chain / priority / referenced / networks list) and
- * statistics are symbolic subject to the representation invariant; audit() is that invariant, evaluated on
- * the ACTUAL memory (walks the real lists), so "audit(pre) holds" is asserted, not assumed.  Then one real
- * operation, audit() again, plus the functional contract of the operation stated over the two views.
+ * INV-STEP obligations (h_get, h_ref, h_unref, h_get_network, ...): build_state() creates, through the allocator
+ * model and the real vbi_cache_new(), a cache with <= 2 (3) networks and <= 3 pages.  audit() is the
+ * representation invariant, evaluated on the ACTUAL memory (it walks the real lists), so "audit(pre) holds" is
+ * asserted, not assumed.  Then one real operation, audit() again, plus the functional contract of the operation
+ * stated over the two views (struct view = list orders + scalar snapshot).
+ * SEQ obligations (h_seq): from the real empty cache, k operations, audit + reference map after each.
+ *
+ * What had to be made CONCRETE (runner grid) for CBMC to answer at all, each measured (see the comments at the
+ * definitions): page number and reference class of every page slot, number of pages/networks, the operation's page
+ * number, for unref also reference count / zombie flag of the released page and the networks' zombie flags.
+ * Harnesses h_put, h_net_unref, h_add_network, h_purge, h_delete, h_foreach and the longer h_seq variants are
+ * kept for the native build (the self-test drives them with random inputs under ASan/UBSan/LSan) but are NOT
+ * obligations: symex does not finish on them (list walks that delete while iterating; see the report in the
+ * runner description / C10.py `outside`).
  */
 #include "verif.h"
 #include "c10_env.h"
@@ -27,9 +35,9 @@ static unsigned n_alloc, n_free;
 
 /* Every page allocation of one run has the same size class C10_PSIZE (grid): the pool slots are exact-size
  * objects, so running off the end of an allocation is a bounds failure.  Under CBMC a slot is a struct with
- * the layout of the cache_page header followed by a plain byte array: the real cache_page type (4504 bytes,
- * 14 K scalar fields after field expansion) made symex re-assign every field on each byte-wise access
- * (measured: 900 K SSA steps, 110 s for the builder alone). */
+ * the layout of the cache_page header followed by C10_DATA body bytes (the memcpy model below stands for the body
+ * copy): with the real cache_page type (4504 bytes, 14 K scalar fields after field expansion) every imprecise
+ * pointer write re-assigned all fields (measured: 900 K SSA steps, 110 s for the builder alone; later: symex stalls). */
 #ifndef C10_PSIZE
 #define C10_PSIZE 1564            /* LOP: header 88 + struct ttx_lop 1476 */
 #endif
@@ -273,7 +281,18 @@ static unsigned ref_size(int fn, unsigned x26, unsigned x28)
   }
 }
 
-static const struct view VIEW_ZERO;
+static const struct ttx_page_stat STAT_ZERO;
+static void view_clear(struct view *v)      /* field by field: a whole-struct assignment cost 25 s of symex per audit */
+{
+  int i, k;
+  for (i = 0; i < NA; i++) { v->hn[i] = 0; for (k = 0; k < NP; k++) v->hs[i][k] = 0; }
+  v->pn = v->rn = v->nn = 0;
+  for (k = 0; k < NP; k++) { v->ps[k] = v->rs[k] = 0; v->p_live[k] = v->p_ref[k] = v->p_pri[k] = v->p_pgno[k] = v->p_subno[k] = v->p_net[k] = v->p_fn[k] = v->p_nat[k] = 0;
+    v->p_size[k] = v->p_flags[k] = 0; v->p_m0[k] = 0; }
+  for (k = 0; k < NN; k++) { v->ns[k] = 0; v->n_live[k] = v->n_ref[k] = v->n_zombie[k] = 0; v->n_cached[k] = v->n_refd[k] = v->n_maxc[k] = 0;
+    for (i = 0; i < NA; i++) v->st[k][i] = STAT_ZERO; }
+  v->ca_pages = v->ca_nets = v->ca_ref = 0; v->ca_mem = v->ca_limit = 0;
+}
 static int stat_zero(const struct ttx_page_stat *x)
 { return x->page_type == 0 && x->charset_code == 0 && x->subcode == 0 && x->flags == 0 && x->n_subpages == 0 && x->max_subpages == 0 && x->subno_min == 0 && x->subno_max == 0; }
 
@@ -287,7 +306,7 @@ static int audit(struct view *v)
 {
   int ok = 1, i, n, a, k, cnt_h[NP], cnt_p[NP], cnt_r[NP], cnt_n[NN], nlive = 0, nnets = 0, nnz = 0;
   unsigned long mem = 0;
-  *v = VIEW_ZERO;
+  view_clear(v);
   if (!ca_live) return 0;
   for (i = 0; i < NP; i++) cnt_h[i] = cnt_p[i] = cnt_r[i] = 0;
   for (n = 0; n < NN; n++) cnt_n[n] = 0;
@@ -421,6 +440,29 @@ static const int SRC_[4] = { C10_R0, C10_R1, C10_R2, C10_R3 };
 #define C10_Z2 2
 #endif
 static const int SZ_[3] = { C10_Z0, C10_Z1, C10_Z2 };
+/* zombie flag of each referenced page slot: 0 / 1 concrete, 2 = symbolic (concrete: ca->memory_used stays a constant
+ * through cache_page_unref, so that `memory_used > memory_limit` folds and delete_surplus_pages() is not explored) */
+#ifndef C10_PZ0
+#define C10_PZ0 2
+#endif
+#ifndef C10_PZ1
+#define C10_PZ1 2
+#endif
+#ifndef C10_PZ2
+#define C10_PZ2 2
+#endif
+static const int SPZ_[3] = { C10_PZ0, C10_PZ1, C10_PZ2 };
+/* reference count of each referenced page slot: 0 = symbolic (1..2), else concrete */
+#ifndef C10_RC0
+#define C10_RC0 0
+#endif
+#ifndef C10_RC1
+#define C10_RC1 0
+#endif
+#ifndef C10_RC2
+#define C10_RC2 0
+#endif
+static const int SRC2_[3] = { C10_RC0, C10_RC1, C10_RC2 };
 
 /* builder-side allocation: slot index concrete, liveness symbolic */
 static void *take_page(int i, unsigned size, int live)
@@ -503,6 +545,8 @@ static void build_state(int max_pages)
     const int pgno = PGA[SPA[i]];
     int fn; cache_page *cp; cache_network *cn; struct ttx_page_stat *ps;
     (void) max_pages;
+    if (SRC_[i] && SRC2_[i]) ref = (unsigned) SRC2_[i];
+    if (SRC_[i] && SPZ_[i] != 2) { zombie = (unsigned) SPZ_[i]; pri = 0; }   /* priority field fully concrete: switch (cp->priority) folds */
     if (SRC_[i]) { V_ASSUME(ref >= 1 && ref <= 2 && zombie <= 1); } else { ref = 0; zombie = 0; }
     V_ASSUME(net < NN && pri <= 1 && fnsel <= 1);
     if (live) V_ASSUME(net_live[net] && key_ok(pgno, (int) subno));
@@ -514,7 +558,7 @@ static void build_state(int max_pages)
     cp->function = (enum ttx_page_function) fn; cp->pgno = pgno; cp->subno = (int) subno; cp->national = (int) nat; cp->flags = flags;
     cp->x26_designations = C10_X26; cp->x28_designations = C10_X28;
     M0_SET(cp, m0);
-    if (ref > 0) cn->n_referenced_pages++; else CA->memory_used += C10_PSIZE;
+    if (SRC_[i]) cn->n_referenced_pages++; else CA->memory_used += C10_PSIZE;   /* concrete branch: memory_used stays a constant */
     CA->n_cached_pages++; cn->n_cached_pages++; ps->n_subpages++;
   }
   perm_n = in_u8(); perm_p = in_u8(); perm_r = in_u8();
@@ -808,6 +852,9 @@ V_HARNESS(h_ref)
   r = cache_page_ref(pg_ptr[e]);
 
   V_ASSERT(audit(&V1), "post_audit");
+#ifdef C10_MUT      /* sensitivity check (by hand): a wrong expectation must make the obligation fail */
+  V_ASSERT(V1.ca_mem == V0.ca_mem, "mutant_expectation_memory_unchanged");
+#endif
   V_ASSERT(r == pg_ptr[e] && page_intact(&V0, &V1, e) && V1.p_ref[e] == V0.p_ref[e] + 1 && V1.p_pri[e] == V0.p_pri[e], "ref_page_intact_ref_plus_one");
   for (i = 0; i < NP; i++) if (i != e) V_ASSERT(page_same(&V0, &V1, i), "ref_other_pages_untouched");
   for (i = 0; i < NA; i++) V_ASSERT(seq_eq(V0.hs[i], V0.hn[i], V1.hs[i], V1.hn[i]), "ref_chains_untouched");
@@ -1104,6 +1151,10 @@ V_HARNESS(h_seq)
       SRC.pgno = pgno; SRC.subno = (int) subno; ((uint8_t *) SRCP)[offsetof(cache_page, data)] = m0;
       r = _vbi_cache_put_page(CA, cn, SRCP);
       V_ASSERT(r != NULL, "seq_put_succeeds");
+#ifdef VERIF_CBMC
+      V_ASSERT(MC_dst == (const void *) ((const char *) r + offsetof(cache_page, data)) && MC_src == (const void *) ((const char *) SRCP + offsetof(cache_page, data))
+               && MC_n == C10_PSIZE - offsetof(cache_page, data), "seq_put_body_copy_stays_inside_both_allocations");
+#endif
       ref_put_key(pgno, (int) subno, (int) ptype, &s2, &m);
       v = map_find(pgno, s2 & m, m);
       if (v >= 0) map_remove(v);
@@ -1158,12 +1209,16 @@ V_HARNESS(h_seq)
         V_ASSERT(ps->n_subpages == 0 || ps->subno_min <= ps->subno_max, "seq_subno_min_le_max_when_cached"); } }
 #endif
   }
-  /* release everything: every allocation is freed */
+#ifdef C10_RELEASE
+  /* release everything: every allocation is freed.  NOT part of any shipped obligation: cache_page_unref with a
+   * symbolic memory_used explores delete_surplus_pages(), vbi_cache_delete() walks ca->priority - symex of both
+   * did not finish (see the report); kept for native runs (LeakSanitizer) */
   for (j = 0; j < 2 * MAXK; j++) if (j < held_n) cache_page_unref(HELD[j]);
   V_ASSERT(audit(&V1) && V1.rn == 0, "seq_audit_after_release");
   cache_network_unref(cn);
   vbi_cache_delete(CA);
   V_ASSERT(n_free == n_alloc && !ca_live, "seq_release_frees_every_allocation");
+#endif
   V_END();
 }
 
